@@ -89,6 +89,7 @@ class ExcelCompiler:
         self.range_todos = []
 
         self.extra_data = None
+        self._values_changed = False
         self.conditional_formats = {}
         self._formula_cells_dict = {}
         self._plugin_modules = plugins
@@ -469,6 +470,7 @@ class ExcelCompiler:
                 isinstance(old_value, bool) != isinstance(value, bool)):
             # need to be able to 'set' an empty cell, set to not None
             cell_or_range.value = value
+            self._values_changed = True
 
             # reset the node + its dependencies
             if not self.cycles:
@@ -754,9 +756,17 @@ class ExcelCompiler:
             # stick in queue to add edges
             self.graph_todos.append(node)
 
+        def stored_value(value, formula):
+            # once an input has been changed, the stored results of formulas
+            # which are not yet loaded, might no longer be valid
+            changed = getattr(self, '_values_changed', False)
+            return None if formula and changed else value
+
         def build_cell(excel_cell):
-            a_cell = self.Cell(excel_cell.address, value=excel_cell.values,
-                               formula=excel_cell.formula, excel=self.excel)
+            a_cell = self.Cell(
+                excel_cell.address,
+                value=stored_value(excel_cell.values, excel_cell.formula),
+                formula=excel_cell.formula, excel=self.excel)
             self.cell_map[str(excel_cell.address)] = a_cell
             return [a_cell]
 
@@ -768,7 +778,8 @@ class ExcelCompiler:
             if isinstance(excel_range.formula, tuple):
                 for addr, value, formula in a_range.cells_to_build(excel_range):
                     if addr.address not in self.cell_map:
-                        a_cell = self.Cell(addr, value, formula, self.excel)
+                        a_cell = self.Cell(
+                            addr, stored_value(value, formula), formula, self.excel)
                         self.cell_map[addr.address] = a_cell
                         added.append(a_cell)
             else:
